@@ -1,5 +1,6 @@
 """C02 - see DESIGN.md section 5; shared machinery in corecommon.py"""
 from checks import corecommon as cc
+from checks import corefam8
 
 PID = "C02"
 LEVEL = cc.LEVEL
@@ -15,12 +16,14 @@ RULE = ("grammar-generated task programs (profiles %s; trees and DAGs of tasks, 
         "the real scheduler and replayed in the Lean machine with the implementation's flush choices; non-trivial = at "
         "least 2 tasks and 1 scheduler flush; distinct by hash of (configuration, programs)" % (", ".join(p for p, _ in MIX)))
 RULE += cc.ASYNCIO_RULE
+RULE += "; plus round-6 families selfcancel (a flush that completes its own batch through the public API - cancel / set_error / set_value - and then returns or raises: every waiting task receives the item's first outcome at its read, try/except works) and deepfail (chains of 10..4000 tasks, under the default recursion limit, whose k-th level fails, with / without a handler above), judged by direct expectation (Drv/Families8.lean)"
 TRUSTED = cc.TRUSTED_CORE + cc.TRUSTED_ASYNCIO
 ASSUMPTIONS = cc.ASSUMPTIONS_CORE
 
 
 def extra(tier, rng):
-    return cc.exotic_cases() + cc.asyncio_cases(PID, tier, cc.fork(rng, "aio"))
+    return cc.exotic_cases() + cc.asyncio_cases(PID, tier, cc.fork(rng, "aio")) + \
+        corefam8.selfcancel_cases(tier, cc.fork(rng, "selfcancel")) + corefam8.deepfail_cases(tier, cc.fork(rng, "deepfail"))
 
 
 def plan(tier, seed):
@@ -28,10 +31,14 @@ def plan(tier, seed):
 
 
 def run_case(case):
+    if case.get("special") in corefam8.RUNNERS:
+        return corefam8.run(case, PID)
     return cc.run_case_for(PID, case)
 
 
 def shrink(case):
+    if case.get("special") in corefam8.RUNNERS:
+        return corefam8.shrink(case)
     return cc.shrink_case(case)
 
 
